@@ -153,6 +153,17 @@ class CacheModel:
                         and isinstance(n.value.value, (int, float)) \
                         and n.value.value > 0:
                     bumped.add(mangle(f.cls.name if f.cls else "", n.target.attr))
+        # ... and whatever the effect trees of the public entry points see as a
+        # bump (spelled-out increments, setattr tables, helper methods)
+        for c in self.classes:
+            for a in self.activations(c):
+                try:
+                    t = self.p.tree(a, c, {})
+                except AnalysisError:
+                    continue
+                for e in iter_events(t):
+                    if e.kind == "bump":
+                        bumped.add(e.cell)
         return keycells & bumped
 
     # -- reads
